@@ -12,731 +12,698 @@ Definition show_fres (r : fres) : string :=
   end.
 Definition check (rs : list rune) : string := digest (show_fres (format_res rs)).
 Definition full (rs : list rune) : string := show_fres (format_res rs).
-Eval vm_compute in ("<<<M317>>>" ++ check (runes_of_ascii "MetaData Logon
-    {
-    char[]u8x , matchKey pack,
-u8 int ``, char[ 007
+Eval vm_compute in ("<<<M165>>>" ++ check (runes_of_ascii "packet falsey { char[7
     ]
-msg_type ,
-BodyLength o	,string_ crc  `a\`, } options	{
-    //x
-    trueish = int16 Packet
-    = char MetaDataX=
-char[
-//
-// trailing space 
-255 ] // a // b
-;}	root
+Foo @calculatedFrom( ""CRC32"" ) , @tag(
     //
-    packet a1 // packet A { u8 x, }
-{ } root packet // c
-MetaDataX{
-@lengthOf(_x)
-repeat
-Logon{// " ++ [128512]%N ++ runes_of_ascii " emoji
-o
-a1 , uint64
-    u128 ,  } ,zchar[007] chars
-    `line1
-line2` ,	repeat Header u128`doc`, // " ++ [128512]%N ++ runes_of_ascii " emoji
-@calculatedFrom(""1"")int
-trueish
-, char[0123456789
-    ]
-uint8x,
-i8 int	@lengthOf( msg_type )`line1
+    10)	u8 Packet`" ++ [233]%N ++ runes_of_ascii "` ,repeat  stringy
+,
+@lengthOf( // a // b
+float)tag { repeat
+    u8x {
+int16 charz@lengthOf(trueish ) , //	t
+repeat  string calculatedFrom,
+charz @calculatedFrom(  ""a\""b""
+)	`line1
 line2`
 ,
-    //x
-    @rightPad (
-) repeat f64 Z9_, metadata{ falsey @calculatedFrom(
-""abc""
-) , }, options1 @calculatedFrom( ""\n"" ) ,@calculatedFrom(	""\n"" )  match metadata
-    as Header {[
-    """" ,  ""1"" ] :	Foo //
-, [  ""\n""
-, 10
-,
-// " ++ [27880; 37322]%N ++ runes_of_ascii "
-// c
-""{,}"" ]
-: Logon
-,
-[
-    """"] :
-len
-, ""\n""  :// trailing space 
-msg_type , [ // c
-00 ]
-    : trueish , 10 : u8x, }
-    ,
-    } // " ++ [27880; 37322]%N ++ runes_of_ascii "
-root
-packet
-    BodyLength
-    { char[42
-] body  @calculatedFrom(
-    ""{,}"" ) `tab	here` // trailing space 
-,
-i32
-stringy  @calculatedFrom( """ ++ [28040; 24687]%N ++ runes_of_ascii """ ),  @tag(  0123456789	)
-@rightPad ( )@tag( 00 )  i16 a1 @lengthOf( pack// a // b
-) ,
-    @tag( 10
-)
-@leftPad ('\x00' ) // `tick` ""quote"" 'q'
-@calculatedFrom( ""a\""b"" ) repeat char[] // c
-stringy `
-`	, chars `say ""hi""`,
-@lengthOf(  a1 ) @leftPad( '0'  )
-    match Z9_
-as Header { 00
-    //	t
-    : As ,
-} // " ++ [27880; 37322]%N ++ runes_of_ascii "
-, o @calculatedFrom( """ ++ [128512]%N ++ runes_of_ascii """
-    )
-, @leftPad //	t
-(	)As// trailing space 
-@calculatedFrom( ""// no comment"") ,
-match x_y_z  as
-    BodyLength {
-""x y"" // `tick` ""quote"" 'q'
-:BodyLength
-, """ ++ [28040; 24687]%N ++ runes_of_ascii """  : packetx  , 0 :
-    Header ,
-    ""x y"" : matchKey
-    //	t
-    ,}, } // trailing space ")).
-Eval vm_compute in ("<<<M324>>>" ++ check (runes_of_ascii "MetaData Pad { char[] Packet , f32a i64_
-    `tab	here`
-// c
-// a // b
-,
-} root packet
-    As { @calculatedFrom(""CRC32""	)@calculatedFrom(  ""1""  ) @calculatedFrom( ""// no comment""
-// a // b
-//
-)	As
-As `say ""hi""` , Foo  msg_type , calculatedFrom
-@calculatedFrom( ""\n"" ) , zchar {	zchar[ 7 ] charz // `tick` ""quote"" 'q'
-@calculatedFrom(""x y"" )
-    , Z9_
-    `{ , }` , repeat int { zchar[ 3
-] i8i8
-    @lengthOf( chars )
-,
-match zchar as
-    o {1 : //
-u128	,
-    0
-:
-// trailing space 
-//x
-stringy
-, 42
-: charz""x y"": a1 3 : Header ,
-4294967296 : o } , repeat
-Header `two words`, match u8x  as u8x
-{
-[ 10] : pack ,	1 :
-BodyLength
-//
-// " ++ [27880; 37322]%N ++ runes_of_ascii "
-0 : MetaDataX
-,42
-:  calculatedFrom },	} /// triple
-, } , // " ++ [27880; 37322]%N ++ runes_of_ascii "
-}
-// `tick` ""quote"" 'q'
-/// triple
-packet
-    i64_ { }
-    root packet x { Header
-{char[ /// triple
-0 ] _x `// not a comment`
-    ,
-}
-    ,@lengthOf( A
-)uint32 f32a
-@calculatedFrom( ""abc""
-    )
-// `tick` ""quote"" 'q'
-// " ++ [27880; 37322]%N ++ runes_of_ascii "
-,
-repeat i16 trueish `u8 x,` ,@rightPad	( ' ' )@calculatedFrom( ""a\\"" ) float,
-    repeat char[ 7
-]zchar,
-    @tag( 10 ) repeat
-    //	t
-    a1 falsey	`say ""hi""`,
-    @lengthOf(
-len )repeat zchar[	00
-    // `tick` ""quote"" 'q'
-    ] uint8x ,}
-MetaData  metadata {
-u8 body
-, }")).
-Eval vm_compute in ("<<<M1805>>>" ++ check (runes_of_ascii "options {
-    FixedStringPadFromLeft = true;
-    FixedStringPadChar = '0';
-}
-
-packet Leg {
-    InPrice0 {
-        repeat string clOrdID,
-        int16 msgKind,
-        zchar[5] Px,
-    },
-    i16 f1,
-    repeat f64 Side2,
-    string Acct,
-}
-
-packet Cancel {
-    zchar[4] clOrdID,
-    string seqNo,
-    Leg,
-    @leftPad('0')
-    char[11] OrderId,
-}
-
-packet Quote {
-    repeat char[4] sym,
-    f64 OrderId,
-    repeat Leg,
-    repeat i64 f1,
-    int16 Note,
-    zchar[3] count,
-}
-
-root packet Ack {
-    @leftPad(' ')
-    char[10] sym,
-    InPx60 {
-        Cancel,
-        repeat char[1] f1,
-        string Tail,
-        repeat InNote55 {
-            int8 count,
-            f64 f1,
-            repeat Cancel,
-        },
-        char[] tag7,
-        repeat string msgKind,
-    },
-    u8 lastPx,
-    match lastPx as Body {
-        152 : Quote,
-        173 : Cancel,
-        4 : Leg,
-    },
-    u16 Ref @calculatedFrom(""CR\
-        C32""),
-}")).
-Eval vm_compute in ("<<<M1526>>>" ++ check (runes_of_ascii "options {
-    FixedStringPadFromLeft = true;
-    FixedStringPadChar = '0';
-}
-
-packet Leg {
-    repeat InSym93 {
-        zchar[3] Acct,
-        string Side2,
-        i32 Flags,
-        f32 Note,
-        i32 msgKind,
-    },
-    f64 Note,
-    uint16 Px,
-}
-
-packet Quote {
-    zchar[2] OrderId,
-}
-
-packet Ack {
-    repeat string lastPx,
-    zchar[4] price,
-    uint32 OrderId,
-    Quote,
-    int8 Acct,
-}
-
-packet Fill {
-    repeat Leg,
-    @rightPad('0')
-    char[11] Note,
-    f64 Px,
-    @rightPad('\x00')
-    char[5] Flags,
-    zchar[9] x,
-    string msgKind,
-}
-
-root packet Order {
-    Leg,
-    repeat Ack,
-    @rightPad('\x00')
-    char[3] Side2,
-    repeat char[1] seqNo,
-    u16 clOrdID,
-    match clOrdID as Body {
-        198 : Leg,
-        23 : Quote,
-        13 : Ack,
-        159 : Fill,
-    },
-    u32 venue @calculatedFrom(""CR\
-        C32""),
-}")).
-Eval vm_compute in ("<<<M1551>>>" ++ check (runes_of_ascii "// a // b
-    packet u128{
-repeat
-    chars
-
+},u64
+    MetaDataX @calculatedFrom( """ ++ [128512]%N ++ runes_of_ascii """
+    ) `" ++ [233]%N ++ runes_of_ascii "`
+    ,rootA
+    // packet A { u8 x, }
     {
-
-i64
-
-    u8x 
-`
-` // a // b
-  	,	// c
-		_x@lengthOf(  falsey )
+    repeat	u64 BodyLength
+`" ++ [233]%N ++ runes_of_ascii "` , pack @calculatedFrom( //x
+""{,}"" )
+    `" ++ [28040; 24687; 31867; 22411]%N ++ runes_of_ascii "` ,repeat // c
+x charz,
+},
+    // a // b
+    char[] packetx, }	, // `tick` ""quote"" 'q'
+calculatedFrom , u x_y_z
+,repeat	int	i64_ ,@leftPad (
+    ' '
+)u32 T @calculatedFrom( ""{,}"" )
+, repeat
+    metadata , } root packet
+chars
+{ char[	65535
+]  pack @lengthOf( As ) `tab	here` , char[
+255] msg_type `// not a comment`
+    ,@calculatedFrom(
+    ""// no comment"" ) @tag( //	t
+0 ) @tag(10 ) repeat Header {
+    char[]
+// @lengthOf(
+// " ++ [27880; 37322]%N ++ runes_of_ascii "
+i64_,repeat T//x
+`` ,match uint8x	as i64_ {
+00// `tick` ""quote"" 'q'
+: _x ,	65535: //
+Z9_,
+""1""
+: u8x ,
+007 : Z9_
+, 255
+:
+matchKey
+""1"" :
+crc , } , } ,
+    @calculatedFrom(	""packet""	) match int as x_y_z{ 0123456789 :	Logon
+    // @lengthOf(
     ,
-    Logon
-	`" ++ [28040; 24687; 31867; 22411]%N ++ runes_of_ascii "`,
-    repeat char[]
+    //	t
+    [ 0123456789, ""it's"" ]
+:
+int
+    , [""a	b"" , ""CRC32"" , 0, 4294967296 , """"	] :
+pack , 0 : u , } , match // @lengthOf(
+string_ as
+int
+{ 0: repeatCount [ ""abc""
+    ] : // " ++ [27880; 37322]%N ++ runes_of_ascii "
+float 007: msg_type , [
+    ""a\""b""	]:
+charz , } , i16 MetaDataX`say ""hi""`, repeat u `tab	here` , repeat falsey  { repeat i8 lengthOf `a\` ,
+    repeatCount@lengthOf( o)
+    `{ , }`,}, }packet rootA
+    { calculatedFrom//	t
+@calculatedFrom( ""x y"") ,
+char Pad @calculatedFrom( ""a\""b"" ) `" ++ [233]%N ++ runes_of_ascii "`
+    , @leftPad
+( '\x00' )	repeat float64 tag ,
+    // " ++ [27880; 37322]%N ++ runes_of_ascii "
+    @calculatedFrom( ""1"") repeat Foo ,  } // " ++ [27880; 37322]%N)).
+Eval vm_compute in ("<<<M1939>>>" ++ check (runes_of_ascii "
+packet 	 // " ++ [128512]%N ++ runes_of_ascii " emoji
 
-    trueish
-    `tab	here` , }	,
-	} root
-	packet T {
+x{
+	    //x
+lengthOf
+@calculatedFrom( ""abc""	) `u8 x,`
+,@rightPad( )
+	//x
 
-match
-	Packet 
-as
-trueish {
-""packet""  :charz	, [ 4294967296 ,""1""
+// @lengthOf(
+float32
 
+Packet  @lengthOf(falsey
+
+) ,  char[ 
+10 ]  falsey ,
+
+@tag( 3
+    )
+
+repeat
+zchar[
+    4294967296 ] repeatCount 
+, repeatCount
+	`say ""hi""`	, int16
+    u128 	 // `tick` ""quote"" 'q'
+	,	char[
+
+    3	]
+
+crc @calculatedFrom( ""x y""
+	),// trailing space 
+@leftPad(
+// " ++ [27880; 37322]%N ++ runes_of_ascii "
+	'\x00'
+) match	chars
+
+    as	i8i8 {
+
+42	: charz 	 // trailing space 
+,
+	}
+,
+
+    } options 
+{
+
+}
+MetaData	metadata
+	{ char[  4294967296 
 ]
-:  A ,
+    i8i8  ,
 
-7
+    float rootA ,	i64
+packetx	// " ++ [27880; 37322]%N ++ runes_of_ascii "
+	,  i8 	 // " ++ [27880; 37322]%N ++ runes_of_ascii "
+  	roots
+`crlf
+line` ,
 
-: x  
-      // " ++ [27880; 37322]%N ++ runes_of_ascii "
+tag i64_
 	,
+uint8 Pad
 
-[  
-  // a // b
-  	7,
-
-    ""a	b"" ] :
-
-    u128 
-255:
-    As
-3
-
-:
-Packet	,
-	},
-//	t
-    	// trailing space 
-  	pack	`a\`
-,
-
-    @calculatedFrom(
-	""" ++ [233]%N ++ runes_of_ascii "t" ++ [233]%N ++ runes_of_ascii """	//	t
-
-	) 
-rootA
-matchKey  ,
-char[
-    65535 
-]  /// triple
-leftPad	@lengthOf(
-    roots 
-//
-
-) , repeat MetaDataX 
-{	u64 a1
-@calculatedFrom(""x y"" ) `doc`  ,	//	t
-		uint8
-
-    falsey  , match
-
-    BodyLength
-
-    as
-	A  {
-
-    [
-
-""\" ++ [233]%N ++ runes_of_ascii """
-
-,
-	255,  """" 
-, ""it's"" 
-] :
-
-    Foo ,3 :u128 
-} 
-,} , 
-} ")).
-Eval vm_compute in ("<<<M219>>>" ++ check (runes_of_ascii "
-packet
-falsey{ // `tick` ""quote"" 'q'
-repeat charz
-    /// triple
-    float // a // b
-`tab	here`
+    `" ++ [233]%N ++ runes_of_ascii "`
     ,
-char[]stringy  , Logon
-    f32a,
-    char[] string_/// triple
-,
-int16
-_x
-`` ,
-    match/// triple
-crc as stringy { ""abc"" :Pad
-    [ ""\n"" , 10, 4294967296, 0123456789 , ""abc"" ,	""" ++ [28040; 24687]%N ++ runes_of_ascii """
-    ] :
-i8i8 , 10 :
-    //x
-    Header , 10:// c
-calculatedFrom
-    , 0123456789: charz
-10
-    :
-    repeatCount} ,
-    leftPad @lengthOf(
-u8x )  , @lengthOf(a1) repeat x body ,
-} MetaData
-string_
-{ float64  f32a	, zchar[
-255] T, u32 trueish, BodyLength roots
-`two words` , }
-// " ++ [128512]%N ++ runes_of_ascii " emoji
-//	t
-packet stringy{ zchar[
-    255
-    ]Foo ,
-}
-MetaData
-leftPad {
-    } //
-options { x //x
-=
-true
-    ;
-zchar = """" } //")).
-Eval vm_compute in ("<<<M78>>>" ++ check (runes_of_ascii "options {
-Header	=u32; } options {
-i8i8	=
-    f64 ; body
-    =  zchar[
-// " ++ [128512]%N ++ runes_of_ascii " emoji
-/// triple
-00//
-] ; }
-    //
-    MetaData BodyLength  { // trailing space 
-}// " ++ [27880; 37322]%N ++ runes_of_ascii "
-options
-{ Logon= u64 As =
-    true i64_
-= '\x00' ;
-} root packet asx {
-@tag(
-// `tick` ""quote"" 'q'
-//	t
-4294967296
-    )
-    roots @lengthOf( A ) ,repeat uint8 u128
-    , int32 i64_  ,
-    u8 u `` ,
-@lengthOf(
-// c
-// c
-len ) uint64
-    //x
-    matchKey ,	match rootA
-    as stringy {
-1 : string_, 7 : charz , 255 : u128, [ // trailing space 
-0
-,0123456789 ,1,007  ]: len
-    , 10
-    :trueish } ,
-@rightPad	()
-    char[ 7] int //
-@lengthOf(
-x ) `two words`
-, }")).
-Eval vm_compute in ("<<<M1121>>>" ++ check (runes_of_ascii "// top
-root // c0
-packet // c1
-_x
-    // c2
-{ match
-    // c4
-Foo // c5
-as // c6a
-  // c6b
-Z9_ {
-    // c8
-""a	b"" // c9a
-  // c9b
-: // c10
-Pad // c11
-,
-    // c12
-} , // c14
-repeat // c15a
-  // c15b
-x `line1
-line2`
-    // c17
-, // c18
-@rightPad // c19a
-  // c19b
-(
-    // c20
-' ' // c21
-) // c22
-@calculatedFrom( ""a\\""
-    // c24
-) // c25a
-  // c25b
-metadata MetaDataX
-    // c27
-, @tag(
-    // c29
-0 ) // c31
-Logon int
-    // c33
-``
-    // c34
-,
-    // c35
-} // c36
-options // c37
-{
-    // c38
-T // c39
-= // c40a
-  // c40b
-'\x00' } // c42a
-  // c42b
-")).
-Eval vm_compute in ("<<<M1340>>>" ++ check (runes_of_ascii "options {
-    ArrayPrefixLenType = u64;
-    FixedStringPadFromLeft = true;
-    FixedStringPadChar = '0';
-}
-packet Quote {
-}
-packet Ack {
-    repeat InNote66 {
-        u8 pad0,
-    },
-}
-packet Reject {
-}
-root packet Order {
-    Quote,
-    repeat Reject,
-    string venue,
-    string seqNo,
-    uint32 Ref,
-    u16 lastPx,
-    u32 clOrdID @lengthOf(Body),
-    match lastPx as Body {
-        190 : Reject,
-        186 : Quote,
-        22 : Ack,
-    },
-    u16 Flags @calculatedFrom(""CR\
-C32""),
-}
-")).
-Eval vm_compute in ("<<<M1365>>>" ++ check (runes_of_ascii "
-options
+}root	packet 
+Header
 
-{LittleEndian
-=true	; StringPrefixLenType= u64 ;
+{ u64
+options1
 
-ArrayPrefixLenType
+`two words`  ,@calculatedFrom(
+""a\\""// trailing space 
+    ) 	 // " ++ [128512]%N ++ runes_of_ascii " emoji
+  i32 	 //	t
+  x_y_z
 
-=u16;
+@calculatedFrom( 
+""a\""b""
+	)
+`tab	here`	,
 
-    FixedStringPadFromLeft=false ; FixedStringPadChar
-    = ' '
-
-;
-
-}
-    packet Logon
-
-{ zchar[ 5 ]
-
-Side2  ,
-    }root
-
-packet	Logout
-
-{
-repeat
-    i64 Tail
-
-    ,	Logon
-	, repeat 
-i16
-
-OrderId
-    , char[] venue  , 
-uint64 
-x
-,
-    repeat	i16 count
-, u8 Flags, match Flags
-    as	Body  { 25 :
-    Logon	,	}	, u16 Qty
-@calculatedFrom( ""CRC32"")
-, 
-}
-
-")).
-Eval vm_compute in ("<<<M1444>>>" ++ check (runes_of_ascii "
-// top
-MetaData  // c0
-    uint8x	// c1
-	{ 	 // c2
-    	char[]  // c3
-
-f32a  // c4
-
-  `// not a comment` // c5
-, 	 // c6
-      float32	// c7
-    	roots  // c8
-,	// c9
-	char[ // c10
-      7  // c11
-		]// c12
-u8x// c13
-    ,  // c14
-  zchar[ // c15
-10	// c16
-    ] 	 // c17
-
-f32a // c18
-	, 	 // c19
-
-u64 // c20
-	pack // c21
-,	// c22
-	  u16 	 // c23
-	  pack	// c24
-  ,// c25
-    } 	 // c26
-")).
-Eval vm_compute in ("<<<M1730>>>" ++ check (runes_of_ascii "packet crc {
-    match trueish as len {
-        42 : uint8x,
-        // " ++ [128512]%N ++ runes_of_ascii " emoji
-        ""1"" : asx,
-        3 : body,
-        [0123456789, ""1""] : u,
-        ""packet"" : o,
-    },
-}
-
-MetaData tag {
-    string o `line1
-    line2`,
-    char[] Header `{ , }`,
-    uint8x Z9_,
-}
-
-MetaData tag {
-    i8 len,
-}
-
-options {
-    // `tick` ""quote"" 'q'
-    /// triple
-    x = 10;
-}")).
-Eval vm_compute in ("<<<M1816>>>" ++ check (runes_of_ascii "
-
-  options
-    {LittleEndian =
-true
-
-    ; } packet
-
-Logon
+    match A as  len
 
     {
-    u8  x ,
-} packet
-Logout
+[""CRC32""  // " ++ [128512]%N ++ runes_of_ascii " emoji
+  ,
+	""it's""
+] 	 //	t
+	: Z9_
+	""a	b"" 
+: o
 
-{u16  reason
+,},
+match 
+asx
+	as
+	pack 
+{ 0
+    :
+	x_y_z
+
+,} ,
+
+    char[] 
+i64_ `{ , }`
+
+, }	MetaData 
+stringy
+	{  // trailing space 
+lengthOf
+    // `tick` ""quote"" 'q'
+  //	t
+	o,
+
+string 	 //
+
+u8x
+    , f32
+    string_`doc`, }
+
+")).
+Eval vm_compute in ("<<<M8>>>" ++ check (runes_of_ascii "// @lengthOf(
+packet Pad { zchar[
+    0 ]Header @calculatedFrom(
+""a	b"" ) // " ++ [27880; 37322]%N ++ runes_of_ascii "
+`say ""hi""` , @calculatedFrom(
+    ""a\""b"" // a // b
+)  body @lengthOf( body// `tick` ""quote"" 'q'
+)`say ""hi""` , u16 stringy@lengthOf(
+    // trailing space 
+    trueish ) , @lengthOf( rootA) f64 Foo `say ""hi""` // c
+,u16 Z9_ , x_y_z , }
+    MetaData metadata { uint64 x , trueish chars//
+,
+    asx lengthOf `u8 x,`  ,
+} options { body // a // b
+=	""packet"" } root
+    packet MetaDataX {zchar[
+42	]
+a1
+,Packet x_y_z // " ++ [27880; 37322]%N ++ runes_of_ascii "
+, u8 Foo
+    `u8 x,` , u64
+//	t
+/// triple
+tag, @tag( 1 //x
+)  string x_y_z @calculatedFrom( ""x y"" ) ,f32 Logon	, _x ,charz // a // b
+{
+    rootA metadata `crlf
+line`
+    , Header @calculatedFrom( ""\" ++ [233]%N ++ runes_of_ascii """ ) `` ,
+i64_`line1
+line2`
+    // @lengthOf(
+    , } ,@lengthOf(
+a1// `tick` ""quote"" 'q'
+) string
+As	`doc`
+    , @tag(
+1 ) match As
+    as	trueish
+    //	t
+    {
+    [ ""`tick`""
+    // trailing space 
+    ] :charz,  ""packet"": asx , 42  :
+packetx, [ ""a\\"" ] :
+u }
+,
+}
+/// triple
+")).
+Eval vm_compute in ("<<<M1361>>>" ++ check (runes_of_ascii "options
+
+{  FixedStringPadFromLeft
+= true
+	;
+FixedStringPadChar = '0' ;}packet
+
+Leg{ repeat InSym93
+	{
+
+zchar[
+3
+]
+	Acct,
+string
+Side2 , i32 Flags
+    ,f32
+	Note ,i32 msgKind ,
+
+    }	, f64
+Note	, uint16	Px
+
+    , }
+packet
+	Quote {zchar[2] 
+OrderId	, 
+}
+	packet Ack{ repeat	string
+lastPx 
+, 
+zchar[4 
+]price , uint32 OrderId
+	,	Quote,
+
+    int8
+
+    Acct
+
     ,
 
-}  root
-packet Frame
-{ u16  Kind, u16 Kind2
+} packet	Fill
 
-,  match Kind as
-    Body
-{
-    1 :
-Logon
+    {repeat
+    Leg
+    ,
 
+    @rightPad
+
+    (
+	'0' 
+)	char[
+
+11 ]	Note , 
+f64  Px ,
+
+@rightPad  (	'\x00'
+
+    )	char[  5
+] Flags 
+, 
+zchar[
+9]
+x
+
+    ,string 
+msgKind ,
+} root
+    packet Order	{	Leg , repeat Ack 
 ,
+@rightPad (
+    '\x00')
+char[
+3  ] Side2,
 
-[
-
-    2 ,  3  ,
-4
+    repeat
+    char[ 
+1
 ]
-    :
-Logout  , 100 
-: Logon  ,} ,	match 
-Kind2
 
-as
-Trailer
-    { 
-0 : 
-Logout
+    seqNo
+
+,	u16
+
+    clOrdID
+    ,
+match
+    clOrdID
+
+as Body
+	{ 198 
+: Leg,
+
+    23
+:
+	Quote
+	, 13 
+:
+Ack ,159
+:
+	Fill
 ,
+	}	,	u32	venue
 
-} , 
-} ")).
-Eval vm_compute in ("<<<M81>>>" ++ check (runes_of_ascii "root packet o {
-} MetaData uint8x
-    { int64 rootA  ,}
-    MetaData
-As{i32 // packet A { u8 x, }
-chars,	}packet Z9_// trailing space 
-{
-@leftPad( )char[]	x_y_z,} packet tag {	@leftPad(
+@calculatedFrom( 
+""CRC32"" 
+)
+    ,
+
+}")).
+Eval vm_compute in ("<<<M322>>>" ++ check (runes_of_ascii "packet leftPad { //
+i8 stringy @calculatedFrom( """ ++ [128512]%N ++ runes_of_ascii """	) , int@calculatedFrom(
+// c
 // " ++ [128512]%N ++ runes_of_ascii " emoji
-// " ++ [27880; 37322]%N ++ runes_of_ascii "
-' '
+""a	b"" )
+`it's` ,
+    @leftPad () @tag( 0123456789
+    )int32 u8x , @lengthOf(A )float64	u128	@calculatedFrom(
+    ""a\\"" ), //x
+} options { //x
+Pad = 0 u =
+    ' ' }MetaData
+    a1 { char[]
+metadata	`// not a comment`
+    // @lengthOf(
+    ,
+}	packet
+Foo { @tag(
+42 )	repeat BodyLength ,
+    int8 metadata`{ , }` ,@leftPad ( // c
+)// " ++ [27880; 37322]%N ++ runes_of_ascii "
+@calculatedFrom(//
+""`tick`""
+    ) @calculatedFrom(	""a	b""	) u32 stringy , @lengthOf( roots ) zchar[ 0 ] msg_type @lengthOf( i64_
+)`tab	here`	,i8 Header	`{ , }`
+, char[ 7
+] trueish @lengthOf(	packetx
     )
-zchar[ 0 // `tick` ""quote"" 'q'
-] rootA @calculatedFrom(
-    ""a\\"" )
-    `tab	here`
-,}")).
+, u64	charz `
+`
+    ,
+    zchar[
+//	t
+// c
+65535]
+repeatCount
+`it's`
+    ,match // @lengthOf(
+calculatedFrom as calculatedFrom  {""a	b""
+: roots 42	: MetaDataX	,
+},
+}")).
+Eval vm_compute in ("<<<M1550>>>" ++ check (runes_of_ascii "// trailing space 
+options {
+    f32a = false;
+    stringy = true;
+    u = ""\" ++ [233]%N ++ runes_of_ascii """;
+    stringy = false;
+}
+
+packet options1 {
+}
+
+MetaData packetx {
+    f32 uint8x,
+}
+
+root packet zchar {
+    @tag(4294967296)
+    @lengthOf(a1)
+    i8 _x `it's`,//x
+    char[] o,
+    body,
+    zchar[65535] msg_type `crlf
+        line`,
+    repeat BodyLength {
+        repeat char[65535] stringy,
+    },
+    @calculatedFrom(""" ++ [128512]%N ++ runes_of_ascii """)
+    @tag(10)
+    repeat f32 lengthOf `line1
+        line2`,
+    repeat u {
+        uint32 Z9_,//
+        repeat body `
+                `,
+    },
+    @tag(4294967296)
+    i64_ @lengthOf(tag),
+    @lengthOf(float)
+    @lengthOf(packetx)
+    @calculatedFrom(""" ++ [128512]%N ++ runes_of_ascii """)
+    repeat x_y_z u,
+    @tag(65535)
+    u8 A,
+}//")).
+Eval vm_compute in ("<<<M1424>>>" ++ check (runes_of_ascii "options {
+}
+
+packet u8x {
+    string uint8x @calculatedFrom(""{,}"") `crlf
+        line`,
+}
+
+MetaData falsey {
+    Logon packetx `tab	here`,
+}
+
+root packet o {
+    falsey @calculatedFrom(""" ++ [28040; 24687]%N ++ runes_of_ascii """),
+    @tag(0123456789)
+    // `tick` ""quote"" 'q'
+    char[0123456789] u128 @calculatedFrom(""{,}""),
+    @tag(00)
+    @lengthOf(stringy)
+    @tag(4294967296)
+    rootA Header,
+    @lengthOf(As)
+    repeat leftPad `// not a comment`,
+    i8 leftPad @calculatedFrom(""""),
+    @tag(10)
+    zchar[007] packetx @lengthOf(u8x) `" ++ [28040; 24687; 31867; 22411]%N ++ runes_of_ascii "`,
+}
+
+packet options1 {
+    //	t
+    // trailing space 
+    falsey {
+        //	t
+        zchar[3] roots,
+        u32 Header,
+    },// a // b
+}")).
+Eval vm_compute in ("<<<M305>>>" ++ check (runes_of_ascii "packet
+pack{ u8 x ,
+char[
+    255 ]trueish
+@calculatedFrom(
+""// no comment"" ) `tab	here`,	@lengthOf( asx) repeat //
+zchar[
+0
+] stringy `
+`, @leftPad( '0' ) @calculatedFrom( // trailing space 
+""abc"" )
+    @calculatedFrom( ""it's""
+) char[] packetx@calculatedFrom( ""a	b"" ) `doc` , repeat string len
+    `two words`
+, uint16 matchKey
+    @lengthOf(
+    asx ) ,zchar[ 0 ]
+x `it's` // trailing space 
+, }
+    packet packetx {body  , string trueish `" ++ [233]%N ++ runes_of_ascii "` , @tag(255 )
+@tag(
+3
+// packet A { u8 x, }
+//	t
+) @calculatedFrom(
+    ""\n"" ) repeat f64 roots// trailing space 
+`" ++ [233]%N ++ runes_of_ascii "`	, /// triple
+} 	 ")).
+Eval vm_compute in ("<<<M1553>>>" ++ check (runes_of_ascii "options {
+    StringPrefixLenType = u8;
+    ArrayPrefixLenType = u8;
+    FixedStringPadFromLeft = false;
+    FixedStringPadChar = ' ';
+}
+
+packet Ack {
+    char[] tag7,
+}
+
+packet Reject {
+    InSym61 {
+        repeat Ack,
+        zchar[4] f1,
+    },
+}
+
+packet Logout {
+    char[4] clOrdID,
+}
+
+root packet Cancel {
+    @leftPad(' ')
+    char[10] price,
+    u8 x,
+    u32 venue @lengthOf(Body),
+    match x as Body {
+        [92, 175] : Logout,
+        26 : Reject,
+        144 : Ack,
+    },
+    u16 count @calculatedFrom(""CRC32""),
+}")).
+Eval vm_compute in ("<<<M193>>>" ++ check (runes_of_ascii "
+root packet lengthOf{
+    char[ 3 ] Pad ,	@rightPad
+    (  '0'
+)
+    crc `doc` ,i32 //x
+uint8x
+,	zchar { match Logon  as int { [ 0 , """ ++ [233]%N ++ runes_of_ascii "t" ++ [233]%N ++ runes_of_ascii """] :o , ""// no comment"" :len ,
+} , asx
+{
+    //x
+    char[	10 ]
+u128 // a // b
+@lengthOf(  x_y_z)`say ""hi""`, }
+/// triple
+//
+, char[
+1 ] A, u// c
+chars
+    `` , }, repeat matchKey
+{ //x
+string trueish@calculatedFrom(
+    ""a	b""  )  , repeat
+    // packet A { u8 x, }
+    i8 msg_type `it's` ,	} , /// triple
+}
+packet float { }")).
+Eval vm_compute in ("<<<M1140>>>" ++ check (runes_of_ascii "// top
+MetaData
+    // c0
+leftPad // c1
+{
+    // c2
+chars // c3a
+  // c3b
+MetaDataX // c4
+, // c5a
+  // c5b
+} packet // c7a
+  // c7b
+repeatCount // c8
+{ char[
+    // c10
+255 // c11a
+  // c11b
+] // c12a
+  // c12b
+uint8x
+    // c13
+`" ++ [233]%N ++ runes_of_ascii "` // c14a
+  // c14b
+,
+    // c15
+} // c16a
+  // c16b
+MetaData // c17a
+  // c17b
+pack // c18
+{ // c19a
+  // c19b
+As // c20a
+  // c20b
+Foo
+    // c21
+,
+    // c22
+} // c23a
+  // c23b
+")).
+Eval vm_compute in ("<<<M114>>>" ++ check (runes_of_ascii "packet
+a1 {@calculatedFrom(""`tick`"" ) uint32 charz	`crlf
+line` ,
+// c
+//x
+a1 `tab	here`, }
+    options
+    {
+// " ++ [27880; 37322]%N ++ runes_of_ascii "
+// " ++ [128512]%N ++ runes_of_ascii " emoji
+stringy =
+// c
+// a // b
+255 ;
+    metadata =	4294967296 pack
+    = /// triple
+string	; crc= string
+    ; }  root  packet
+crc	{ @tag(  42  )
+@calculatedFrom( ""abc""  )
+@rightPad ( '0'
+) u128 u8x
+/// triple
+//x
+,@lengthOf(len) uint16 int, }
+")).
+Eval vm_compute in ("<<<M127>>>" ++ check (runes_of_ascii "packet a1{ @leftPad ( ) float
+@lengthOf(
+uint8x ) , }
+packet Logon {
+char Logon
+@calculatedFrom( ""a\\"" )
+    ,T stringy ,
+//
+// c
+repeat uint8 stringy `two words` , } MetaData charz{ u
+    tag
+    `
+`
+, a1 falsey ,//x
+Z9_
+matchKey , f64 lengthOf	`a\` // @lengthOf(
+,
+    f32a roots
+    ``
+,float64
+    x_y_z // @lengthOf(
+, }
+")).
+Eval vm_compute in ("<<<M1376>>>" ++ check (runes_of_ascii "options {
+    LittleEndian = true;
+}
+packet Logon {
+    u8 x,
+}
+packet Logout {
+    u16 reason,
+}
+root packet Frame {
+    i8 Kind,
+    i8 Kind2,
+    match Kind as Body {
+        1 : Logon,
+        [2, 3, 4] : Logout,
+        100 : Logon,
+    },
+    match Kind2 as Trailer {
+        0 : Logout,
+    },
+}
+")).
 Eval vm_compute in ("<<<M222>>>" ++ check (runes_of_ascii "packet
 body// @lengthOf(
 { @lengthOf(
@@ -758,87 +725,133 @@ leftPad // @lengthOf(
 :
 x_y_z , 65535:  u128 , 42 : x ,} , //
 }")).
-Eval vm_compute in ("<<<M1541>>>" ++ check (runes_of_ascii "
-
-  // top
-packet 
-    // c0
-	order_item // c1
-    { 
-u8 // c3
-a  // c4a
-	  // c4b
-	,  // c5
-
-  } 
-root // c7
-
-	packet 
-
-// c8
-    new_order 
-    // c9
-{ 	 // c10
-
-order_item 
-// c11
+Eval vm_compute in ("<<<M1306>>>" ++ check (runes_of_ascii "// top
+packet // c0a
+  // c0b
+orderItem // c1a
+  // c1b
+{ u8 // c3
+a // c4
+, // c5a
+  // c5b
+}
+    // c6
+root packet // c8a
+  // c8b
+newOrder // c9a
+  // c9b
+{ orderItem // c11
+, u8
+    // c13
+x // c14a
+  // c14b
 ,
+    // c15
+} // c16
+")).
+Eval vm_compute in ("<<<M1436>>>" ++ check (runes_of_ascii "
+packet
+    A
+{
+u8
+a  ,
 
-// c12
-    u8  // c13a
-	// c13b
-x,
-// c15
-  }
-")).
-Eval vm_compute in ("<<<M367>>>" ++ check (runes_of_ascii "
-packet roots  { @calculatedFrom( ""a\\"" ) @lengthOf( packetx  ) match repeatCount
-as body { 007:
-    lengthOf ,
-    00
-    :// `tick` ""quote"" 'q'
-zchar,} ,
-char[] chars
-`say ""hi""`,}
-MetaData packetx
-    {}
-")).
-Eval vm_compute in ("<<<M62>>>" ++ check (runes_of_ascii "packet
-crc { @leftPad //	t
-( ) repeat
-charz float
-    ,} root packet
-options1 {
-@tag( 65535/// triple
-)packetx
-{ u128 , f32 /// triple
-a1 ,
-    } , }
-// trailing space 
-")).
-Eval vm_compute in ("<<<M1434>>>" ++ check (runes_of_ascii "packet A {
-    match k as n {
-        [
-            1, 007, 5, 7, 9,
-            11, ""bb"", ""d"", ""f"", ""h"",
-            ""j""
-        ] : B,
-        2 : C,
-    },
-}")).
-Eval vm_compute in ("<<<M1517>>>" ++ check (runes_of_ascii "MetaData tag {
-    body Packet,
-    int16 body,
-    f32a uint8x,
+    } packet	B
+
+    { u16 b
+, }root  packet 
+P
+{  u8
+    K1 ,
+	u8
+
+K2 
+,match
+
+    K1
+    as M1
+
+{
+    1
+
+:
+
+A 
+,
+} ,
+match
+K2 as
+M2 {
+
+    1
+:B, 
 }
 
-packet falsey {
-    x {
-        char[7] lengthOf,
-        char[] o `say ""hi""`,
-    },
-}")).
-Eval vm_compute in ("<<<M476>>>" ++ check (runes_of_ascii "packet uint8x
+,
+
+    }
+")).
+Eval vm_compute in ("<<<M1405>>>" ++ check (runes_of_ascii "
+MetaData
+	stringy { zchar[ 10	] crc,}	packet
+
+u128
+    {
+repeat	uint16	BodyLength
+`// not a comment`
+
+    , @lengthOf(	falsey  )  _x
+	,
+
+    char[
+	42
+] i8i8,
+
+    }
+")).
+Eval vm_compute in ("<<<M1535>>>" ++ check (runes_of_ascii "  MetaData
+	leftPad
+
+{
+chars 	 // c
+	MetaDataX
+    ,  }
+	packet
+repeatCount
+
+    { 
+char[
+255
+]
+
+    uint8x
+`" ++ [233]%N ++ runes_of_ascii "`
+    ,}
+
+    MetaData
+	pack
+{As  Foo , }
+")).
+Eval vm_compute in ("<<<M1714>>>" ++ check (runes_of_ascii "MetaData	repeatCount // c
+	{
+    char[
+
+    42 // " ++ [27880; 37322]%N ++ runes_of_ascii "
+
+	]
+	    // " ++ [128512]%N ++ runes_of_ascii " emoji
+	  MetaDataX, 
+    // @lengthOf(
+  zchar[
+
+// " ++ [27880; 37322]%N ++ runes_of_ascii "
+    //x
+  0
+	] 
+asx
+	, 
+} ")).
+Eval vm_compute in ("<<<M496>>>" ++ check (runes_of_ascii "packet uint8x
 { match pack
     as msg_type	{
     0123456789 :	float
@@ -846,11 +859,22 @@ Eval vm_compute in ("<<<M476>>>" ++ check (runes_of_ascii "packet uint8x
 ,
 } packet //	t
 a1
-    { } } options {packetx
+    { } options {packetx
+    = = '\x00'	; u128= ""a	b""  ; }
+")).
+Eval vm_compute in ("<<<M412>>>" ++ check (runes_of_ascii "packet uint8x
+{ match as
+    pack msg_type	{
+    0123456789 :	float
+}
+,
+} packet //	t
+a1
+    { } options {packetx
     = '\x00'	; u128= ""a	b""  ; }
 ")).
-Eval vm_compute in ("<<<M393>>>" ++ check (runes_of_ascii "uint8x packet
-{ match pack
+Eval vm_compute in ("<<<M400>>>" ++ check (runes_of_ascii "packet uint8x
+ match pack
     as msg_type	{
     0123456789 :	float
 }
@@ -860,242 +884,247 @@ a1
     { } options {packetx
     = '\x00'	; u128= ""a	b""  ; }
 ")).
-Eval vm_compute in ("<<<M673>>>" ++ check (runes_of_ascii "// @lengthOf(
-packet i8i8 { u128 o , }
-options { MetaDataX = true;
-    BodyLength =""packet"" x_y_z float64 007
-crc //x
-= ""abc"" ;
-    msg_type =
-i16 }")).
-Eval vm_compute in ("<<<M1813>>>" ++ check (runes_of_ascii "
-options {  }MetaData
+Eval vm_compute in ("<<<M1542>>>" ++ check (runes_of_ascii "options {
+    f32a = ""a\""b"";
+    Z9_ = ""`tick`""
+    Logon = ""CRC32""
+    u128 = f64;
+    rootA = false;
+}//	t
 
-    u8x
-
-    {
-uint8x
-body `crlf
-line`
-	//	t
-    , calculatedFrom body ,  }	options
-	{  }root
-	packet
-options1
-{ }
-")).
-Eval vm_compute in ("<<<M696>>>" ++ check (runes_of_ascii "// @lengthOf(
-packet i8i8 { u128 o , } }
-options { MetaDataX = true;
-    BodyLength =""packet"" x_y_z= 007
-crc //x
-= ""abc"" ;
-    msg_type =
-i16 }")).
-Eval vm_compute in ("<<<M715>>>" ++ check (runes_of_ascii "// @lengthOf(
-packet i8i8 { u128 o , options
-} { MetaDataX = true;
-    BodyLength =""packet"" x_y_z= 007
-crc //x
-= ""abc"" ;
-    msg_type =
-i16 }")).
-Eval vm_compute in ("<<<M1829>>>" ++ check (runes_of_ascii "packet Logon {
-    metadata @calculatedFrom(""a\\""),
-    @tag(42)
-    @tag(65535)
-    repeat u16 o `line1
-        line2`,
+packet lengthOf {
 }
 
-packet float {
+MetaData len {
 }")).
-Eval vm_compute in ("<<<M37>>>" ++ check (runes_of_ascii "//
-root /// triple
-packet // trailing space 
-pack {
-@leftPad(
-    ' ' )
-    repeat trueish zchar ,	} root
-    packet // " ++ [27880; 37322]%N ++ runes_of_ascii "
-Header { }")).
-Eval vm_compute in ("<<<M223>>>" ++ check (runes_of_ascii "packet  u { repeat
-    // " ++ [128512]%N ++ runes_of_ascii " emoji
-    A , @lengthOf( lengthOf
-)
-    repeat
-    i64
-i64_
-, //
-zchar[
-3// a // b
-] body , }
+Eval vm_compute in ("<<<M551>>>" ++ check (runes_of_ascii "packet uint8x
+{ match pack
+    as " ++ [21517; 23383]%N ++ runes_of_ascii "	{
+    0123456789 :	float
+}
+,
+} packet //	t
+a1
+    { } options {packetx
+    = '\x00'	; u128= ""a	b""  ; }
 ")).
-Eval vm_compute in ("<<<M1146>>>" ++ check (runes_of_ascii "MetaData leftPad
-// c
-{ chars MetaDataX , } packet repeatCount { char[ 255 ] uint8x `" ++ [233]%N ++ runes_of_ascii "` , } MetaData pack { As Foo , }")).
-Eval vm_compute in ("<<<M1178>>>" ++ check (runes_of_ascii "MetaData leftPad { chars MetaDataX , } packet repeatCount { char[ 255 ] uint8x `" ++ [233]%N ++ runes_of_ascii "` , } MetaData
-// c
-pack { As Foo , }")).
-Eval vm_compute in ("<<<M893>>>" ++ check (runes_of_ascii "packet A {
-  match k as n {
-    [""a"", ""bb"", ""c c"", ""d"", ""e"", ""f"", ""g"", ""h"", ""i"", ""j"", ""k""] : B,
-    2 : C
-  },
-}")).
-Eval vm_compute in ("<<<M24>>>" ++ check (runes_of_ascii "options { metadata
-= '\x00' ;
-    u128
-=
-    ""CRC32"" ; charz = ' 'options1 = 00 ; }
-packet string_ { }
+Eval vm_compute in ("<<<M137>>>" ++ check (runes_of_ascii "
+packet u128//x
+{ @calculatedFrom(  ""x y""
+    ) // `tick` ""quote"" 'q'
+@rightPad (  ' ') char[ 42 ]  Header
+    @calculatedFrom( ""abc"" ),  }
+
 ")).
-Eval vm_compute in ("<<<M1317>>>" ++ check (runes_of_ascii "packet FooBar {
+Eval vm_compute in ("<<<M686>>>" ++ check (runes_of_ascii "// @lengthOf(
+packet i8i8 { u128 o , }
+options { f64 = true;
+    BodyLength =""packet"" x_y_z= 007
+crc //x
+= ""abc"" ;
+    msg_type =
+i16 }")).
+Eval vm_compute in ("<<<M304>>>" ++ check (runes_of_ascii "packet
+    // " ++ [27880; 37322]%N ++ runes_of_ascii "
+    Logon {
+repeatCount @lengthOf( roots ) , @tag(0) repeat zchar[007] crc , rootA a1 `{ , }` , string_ `" ++ [233]%N ++ runes_of_ascii "`
+,  }
+")).
+Eval vm_compute in ("<<<M1258>>>" ++ check (runes_of_ascii "packet B {
     u8 a,
 }
-packet foo_bar {
-    u16 b,
-}
-root packet R {
-    FooBar,
-    foo_bar,
+root packet P {
+    u8 K,
+    u8 L @lengthOf(Body),
+    match K as Body {
+        1 : B,
+    },
 }
 ")).
-Eval vm_compute in ("<<<M855>>>" ++ check (runes_of_ascii "packet A {
-  match k as n {
-    [""a"", ""bb"", ""c c"", ""d"", ""e"", ""f"", ""g"", ""h""] : B
-    2 : C
-  },
+Eval vm_compute in ("<<<M1162>>>" ++ check (runes_of_ascii "MetaData leftPad { chars MetaDataX , } packet repeatCount {
+// c
+char[ 255 ] uint8x `" ++ [233]%N ++ runes_of_ascii "` , } MetaData pack { As Foo , }")).
+Eval vm_compute in ("<<<M938>>>" ++ check (runes_of_ascii "packet A {
+    Inner {
+        u8 x `a
+    b
+  c`,
+        Deep {
+            u8 y `a
+    b
+  c`,
+        },
+    },
 }")).
-Eval vm_compute in ("<<<M1457>>>" ++ check (runes_of_ascii "
-packet
-A {
-	u32 crc
-	@calculatedFrom(
-    ""x\
-y""	)
+Eval vm_compute in ("<<<M943>>>" ++ check (runes_of_ascii "packet A {
+    u16 len @lengthOf(body) `a
 
-,	@calculatedFrom(  ""x\
-y"" 
-)u8	y ,	}
-")).
-Eval vm_compute in ("<<<M559>>>" ++ check (runes_of_ascii "
-packet
-    { asx match u128 as lengthOf
-{
-//	t
-// `tick` ""quote"" 'q'
-255 : x ,
-    } ,	}")).
-Eval vm_compute in ("<<<M878>>>" ++ check (runes_of_ascii "packet A {
-  match k as n {
-    [1, 22, 007, 4, 5, 66, 7, 8, 9, 10] : B,
-    2 : C
-  },
+b`,
+    u32 crc @calculatedFrom(""CRC32"") `a
+
+b`,
+    string body,
 }")).
-Eval vm_compute in ("<<<M1289>>>" ++ check (runes_of_ascii "
+Eval vm_compute in ("<<<M1621>>>" ++ check (runes_of_ascii "options  { LittleEndian
+
+=	true
+	;
+} 
 root
 
     packet
 
 P
-{repeat	string
-    ss
-    ,  repeat
-    u16
-ns
-    ,
 
+{
+    repeat
+char
+	cs  ,  u8
+
+    x
+, } ")).
+Eval vm_compute in ("<<<M1719>>>" ++ check (runes_of_ascii "
+root	packet
+	SimpleMessage
+
+    {
+
+uint16  MsgType `" ++ [28040; 24687; 31867; 22411]%N ++ runes_of_ascii "`, string
+
+JsonBody
+	`Json" ++ [23383; 31526; 20018; 28040; 24687; 20307]%N ++ runes_of_ascii "`,
     }
 ")).
-Eval vm_compute in ("<<<M1697>>>" ++ check (runes_of_ascii "
+Eval vm_compute in ("<<<M905>>>" ++ check (runes_of_ascii "packet A {
+  match k as n {
+    [1, 22, 007, 4, 5, 66, 7, 8, 9, 10, 11, 12] : B
+    2 : C
+  },
+}")).
+Eval vm_compute in ("<<<M635>>>" ++ check (runes_of_ascii "
 packet
-    roots {}
+    asx {'1'match u128 as lengthOf
+{
+//	t
+// `tick` ""quote"" 'q'
+255 : x ,
+    } ,	}")).
+Eval vm_compute in ("<<<M637>>>" ++ check (runes_of_ascii "
+~packet
+    asx {match u128 as lengthOf
+{
+//	t
+// `tick` ""quote"" 'q'
+255 : x ,
+    } ,	}")).
+Eval vm_compute in ("<<<M587>>>" ++ check (runes_of_ascii "
+packet
+    asx {match u128 as lengthOf
 
+//	t
+// `tick` ""quote"" 'q'
+255 : x ,
+    } ,	}")).
+Eval vm_compute in ("<<<M572>>>" ++ check (runes_of_ascii "
+packet
+    asx {match  as lengthOf
+{
+//	t
+// `tick` ""quote"" 'q'
+255 : x ,
+    } ,	}")).
+Eval vm_compute in ("<<<M832>>>" ++ check (runes_of_ascii "packet A {
+  match k as n {
+    [""a"", 22, ""c c"", 4, ""e"", 66] : B,
+    2 : C
+  },
+}")).
+Eval vm_compute in ("<<<M819>>>" ++ check (runes_of_ascii "packet A {
+  match k as n {
+    [""a"", 22, ""c c"", 4, ""e""] : B,
+    2 : C
+  },
+}")).
+Eval vm_compute in ("<<<M811>>>" ++ check (runes_of_ascii "packet A {
+  match k as n {
+    [""a"", ""bb"", 007, ""d""] : B
+    2 : C
+  },
+}")).
+Eval vm_compute in ("<<<M808>>>" ++ check (runes_of_ascii "packet A {
+  match k as n {
+    [1, 22, ""c c"", 4] : B,
+    2 : C
+  },
+}")).
+Eval vm_compute in ("<<<M942>>>" ++ check (runes_of_ascii "packet A {
+    B b `a
+
+b`,
+    B `a
+
+b`,
+    repeat B bs `a
+
+b`,
+}")).
+Eval vm_compute in ("<<<M1126>>>" ++ check (runes_of_ascii "// top
 MetaData
-    metadata	{
-asx
-matchKey, uint64
-
-rootA
-,	}
-")).
-Eval vm_compute in ("<<<M1640>>>" ++ check (runes_of_ascii "packet A {
-    match k as n {
-        [1, 22, 007] : B,
-        2 : C,
-    },
-}")).
-Eval vm_compute in ("<<<M818>>>" ++ check (runes_of_ascii "packet A {
-  match k as n {
-    [1, ""bb"", 007, ""d"", 5] : B
-    2 : C
-  },
-}")).
-Eval vm_compute in ("<<<M42>>>" ++ check (runes_of_ascii "
-packet roots
-    { len leftPad `// not a comment`	,} packet packetx{}")).
-Eval vm_compute in ("<<<M787>>>" ++ check (runes_of_ascii "packet A {
-  match k as n {
-    [1, 22, 007] : B,
-    2 : C
-  },
-}")).
-Eval vm_compute in ("<<<M444>>>" ++ check (runes_of_ascii "packet uint8x
-{ match pack
-    as msg_type	{
-    0123456789 :")).
-Eval vm_compute in ("<<<M1287>>>" ++ check (runes_of_ascii "root packet P {
-    repeat string ss,
-    repeat u16 ns,
+    // c0
+u
+    // c1
+{
+    // c2
 }
+    // c3
 ")).
-Eval vm_compute in ("<<<M1822>>>" ++ check (runes_of_ascii "packet A {
-    match k as n {
-        1 : B,
-    },
-}")).
-Eval vm_compute in ("<<<M332>>>" ++ check (runes_of_ascii "MetaData o
-    { } MetaData T  {
-    } options { }")).
-Eval vm_compute in ("<<<M7>>>" ++ check (runes_of_ascii "options {  metadata = ""a\\""// @lengthOf(
-;}
-")).
-Eval vm_compute in ("<<<M1659>>>" ++ check (runes_of_ascii "MetaData lengthOf {
-    Header o `doc`,
-}")).
-Eval vm_compute in ("<<<M197>>>" ++ check (runes_of_ascii "
-options {u8x
-=
-    ""packet"" ;	}
-")).
-Eval vm_compute in ("<<<M1644>>>" ++ check (runes_of_ascii "
+Eval vm_compute in ("<<<M1929>>>" ++ check (runes_of_ascii "
+// top
 
-  MetaData
-u128 {  } 	 //x
+	packet  // c0
+	x	// c1
+    {  // c2
+	}  // c3
+")).
+Eval vm_compute in ("<<<M159>>>" ++ check (runes_of_ascii "root packet x  { roots @calculatedFrom(""a\""b"" ) , }")).
+Eval vm_compute in ("<<<M375>>>" ++ check (runes_of_ascii "options {Foo = '0'	;	Pad = '0';	crc ='0' ; //	t
+}")).
+Eval vm_compute in ("<<<M957>>>" ++ check (runes_of_ascii "MetaData M {
+    u8 x `
+x`,
+    T t `
+x`,
+}")).
+Eval vm_compute in ("<<<M1541>>>" ++ check (runes_of_ascii "root packet P {
+    char c,
+    u8 x,
+}")).
+Eval vm_compute in ("<<<M946>>>" ++ check (runes_of_ascii "root packet A {
+    u8 x `a
+
+b`,
+}")).
+Eval vm_compute in ("<<<M586>>>" ++ check (runes_of_ascii "
+packet
+    asx {match u128 as")).
+Eval vm_compute in ("<<<M1840>>>" ++ check (runes_of_ascii "// top
+MetaData tag {
+}// c3")).
+Eval vm_compute in ("<<<M1634>>>" ++ check (runes_of_ascii "  packet
+	A{ } 
+
+// c" ++ [12288]%N ++ runes_of_ascii "
+")).
+Eval vm_compute in ("<<<M1787>>>" ++ check (runes_of_ascii "
+// only a comment
  
 ")).
-Eval vm_compute in ("<<<M1660>>>" ++ check (runes_of_ascii "
-packet
-A
-    { }
-	// c" ++ [160]%N ++ runes_of_ascii "
-")).
-Eval vm_compute in ("<<<M1500>>>" ++ check (runes_of_ascii "// c" ++ [8239]%N ++ runes_of_ascii "
-packet A
-    {	}
-")).
-Eval vm_compute in ("<<<M1103>>>" ++ check (runes_of_ascii "// c
-MetaData tag { }")).
-Eval vm_compute in ("<<<M1133>>>" ++ check (runes_of_ascii "MetaData u
-// c
-{ }")).
-Eval vm_compute in ("<<<M1036>>>" ++ check (runes_of_ascii "packet A {
+Eval vm_compute in ("<<<M744>>>" ++ check (runes_of_ascii "`" ++ [28040; 24687; 31867; 22411]%N ++ runes_of_ascii "` '0' options")).
+Eval vm_compute in ("<<<M1056>>>" ++ check (runes_of_ascii "packet A {
 }
-// c" ++ [12]%N)).
-Eval vm_compute in ("<<<M1024>>>" ++ check (runes_of_ascii "packet A {
-}// c" ++ [8287]%N)).
-Eval vm_compute in ("<<<M712>>>" ++ check (runes_of_ascii "// @lengthOf(
-")).
+// c" ++ [6158]%N)).
+Eval vm_compute in ("<<<M1224>>>" ++ check (runes_of_ascii "// c
+packet x { }")).
+Eval vm_compute in ("<<<M740>>>" ++ check (runes_of_ascii ", = , ; int16")).
 Eval vm_compute in ("<<<M1000>>>" ++ check (runes_of_ascii "// c" ++ [8192]%N)).
-Eval vm_compute in ("<<<M735>>>" ++ check ([0]%N)).
+Eval vm_compute in ("<<<M727>>>" ++ check (runes_of_ascii "")).
